@@ -194,8 +194,10 @@ class G:
             of = r.choice(["str", "int"])
             e = self.str_(d - 1, env) if of == "str" else self.int_(d - 1, env)
             return f"({e} {r.choice(['in', 'not in'])} {self.list_(d - 1, env, of)})"
-        if w < 86:
+        if w < 84:
             return self.helper_bool(d, env)
+        if w < 86:
+            return self.ctor_bool()
         if w < 93:
             return self.typed(d, env)
         if w < 96:
@@ -243,6 +245,27 @@ class G:
         if helper == "field_contains" and r.chance(30):
             kw += ", word_boundary=True"       # whole-word matches only (a separate code path of the helper)
         return f"{helper}(r, {fields}, {strs}{kw})"
+
+    def ctor_bool(self):
+        """field-type constructors called inside the expression, under every whitelisted spelling"""
+        r = self.r
+        N = r.choice(["net.ipnetwork", "net.IPNetwork"])
+        A = r.choice(["net.ipaddress", "net.IPAddress"])
+        net_ = r.choice(["1.2.0.0/16", "10.0.0.0/8", "::/0", "0.0.0.0/0", "1.2.3.4/32", "::1/128"])
+        addr = r.choice(["1.2.3.4", "::1", "10.0.0.1", "10.255.0.9"])
+        w = r.below(6)
+        if w == 0:
+            return f"(r.ip {r.choice(['in', 'not in'])} {N}('{net_}'))"
+        if w == 1:
+            return f"(r.ip {r.choice(['==', '!='])} {A}('{addr}'))"
+        if w == 2:
+            return f"({A}('{addr}') {r.choice(['in', 'not in'])} {N}('{net_}'))"
+        if w == 3:
+            return f"({N}('{r.choice(['10.1.0.0/16', '1.2.3.0/24', '10.0.0.0/8'])}') in {N}('{net_}'))"
+        if w == 4:
+            return (f"(net.ipv4.Address('{r.choice(['1.2.3.4', '10.0.0.1', '0.0.0.0'])}') in "
+                    f"net.ipv4.Subnet('{r.choice(['1.2.0.0/16', '10.0.0.0/8', '1.2.3.4/32', '1.2.3.4'])}'))")
+        return f"('{addr}' in {N}('{net_}'))"
 
     def typed(self, d, env):
         r = self.r
